@@ -55,7 +55,7 @@ theorem belowTip_processHeader (r : Repo) (h : Hdr) (ok : Bool) (hr : RepoWF r) 
         rw [hlast] at hid
         exact absurd hid hne
       · omega
-  | extend pb ph lst w hp hprev hlen ha hb _ =>
+  | extend pb ph lst w hp hprev hlen hbw ha hb _ =>
     rw [ha]
     have hbr : r.arena[pb]? = some (r.br pb) := by
       unfold Repo.br; rw [List.getElem?_eq_getElem hlen]; rfl
